@@ -1,4 +1,5 @@
 import Shisui.FramingUtp
+import Shisui.FramingLen
 /-! # C15 — Content stream framing round-trips and rejects malformed streams
 
 Property theorems only; lemmas live in `Shisui/Framing*.lean`. Bytes are `Nat`s; the model functions are
@@ -45,10 +46,24 @@ example : dec [0xff, 0xff, 0xff, 0xff, 0x10] = none := by decide        -- 2^32:
 example : dec [0xff, 0xff, 0xff, 0xff, 0x0f] = some (2 ^ 32 - 1, 5) := by decide
 example : utpDec 1 [2, 7, 8] = some [7, 8] ∧ utpDec 1 [2, 7, 8, 9] = none ∧ utpDec 1 [3, 7, 8] = none := by decide
 
+/-- the size of a joined stream follows from the item lengths alone: every item contributes its LEB128 prefix and itself -/
+theorem stream_length (xs : List (List Nat)) : (encContents xs).length = streamLen (xs.map List.length) :=
+  Fr.encContents_length xs
+
+/-- the prefix takes its fifth byte exactly from 2^28 on (every length a 32-bit prefix can carry: below 2^32) -/
+theorem prefix_bytes (n : Nat) (h : n < 2 ^ 32) : (2 ^ 28 ≤ n → lebLen n = 5) ∧ (n < 2 ^ 28 → lebLen n ≤ 4) :=
+  ⟨fun h1 => Fr.lebLen_five n h1 (by omega), Fr.lebLen_le_four n⟩
+
+example : streamLen [3, 2 ^ 28] = 4 + 2 ^ 28 + 5 := by
+  simp only [streamLen]
+  rw [Fr.lebLen_small 3 (by omega), Fr.lebLen_five (2 ^ 28) (by omega) (by omega)]
+
 #print axioms contents_roundtrip
 #print axioms truncated_never_resplits
 #print axioms overlong_prefix_rejected
 #print axioms varint_overflow_rejected
 #print axioms single_exact
 #print axioms utp_roundtrip
+#print axioms stream_length
+#print axioms prefix_bytes
 end Props.C15
